@@ -163,9 +163,12 @@ fn authenticate_message(lm_challenge_response: &[u8], nt_challenge_response:&[u8
 fn get_payload_field(message: &Component, length: u16, buffer_offset: u32) -> RdpResult<&[u8]> {
     let payload = cast!(DataType::Slice, message["Payload"])?;
     let offset = message.length() as usize - payload.len();
-    let start = buffer_offset as usize - offset;
-    let end = start + length as usize;
-    Ok(&payload[start..end])
+    let start = (buffer_offset as usize).checked_sub(offset);
+    let end = start.and_then(|s| s.checked_add(length as usize));
+    match (start, end) {
+        (Some(start), Some(end)) if end <= payload.len() => Ok(&payload[start..end]),
+        _ => Err(Error::RdpError(RdpError::new(RdpErrorKind::InvalidSize, "Payload field is outside of the message")))
+    }
 }
 
 
